@@ -629,6 +629,36 @@ def rule_BD8(rep, prog):
                 e = fn.inst(o)
                 if e is not None and e.op == "icmp" and e.d["pred"] == "eq" and I in (_strip_int(fn, e.ops[0]), _strip_int(fn, e.ops[1])):
                     ok = True
+        if not ok:
+            # any other way of writing the test (De Morgan, the oddness hoisted into a flag): walk up the dominating branches; one of them must decide on a
+            # condition that mentions `index == last` and send the case (index == last AND every other leaf true, i.e. the odd tail) AWAY from this read
+            idom, VR = fn.idom()
+            b = l.block.id
+            while b in idom and idom[b] != b and idom[b] != VR and not ok:
+                child, b = b, idom[b]
+                t = fn.blocks[b].term
+                if t.op != "br" or not t.ops or len(t.d.get("succs", [])) != 2 or t.d["succs"][0] == t.d["succs"][1]:
+                    continue
+                leaves, work, seen_ = [], [t.ops[0]], set()
+                while work:
+                    o = work.pop()
+                    x = fn.inst(o)
+                    if x is None or x.id in seen_:
+                        continue
+                    seen_.add(x.id)
+                    if x.op == "icmp":
+                        leaves.append(x)
+                    elif x.op in ("select", "and", "or", "xor", "zext", "trunc"):
+                        work.extend(y for y in x.ops if y[0] == "i")
+                if not any(e.d["pred"] == "eq" and I in (_strip_int(fn, e.ops[0]), _strip_int(fn, e.ops[1])) for e in leaves):
+                    continue
+                v = ceval(fn, t.ops[0], {e.id: 1 for e in leaves})
+                if v is None:
+                    continue
+                split_edge = t.d["succs"][0 if v else 1]
+                other = t.d["succs"][1 if v else 0]
+                if fn.block_dominates(other, l.block.id) and not fn.block_dominates(split_edge, l.block.id):
+                    ok = True
         rep.require(rid, ok, l.loc, fn.name, "direct-read-of-split-unit",
                     "___dispatch_transform_from_utf16_block_invoke reads a UTF-16 unit straight from the region buffer at an index that was not tested against the "
                     "split last unit of an odd-sized region: a low surrogate whose two bytes straddle a region boundary is read one byte past the region and "
